@@ -81,6 +81,7 @@ func (x *Exec) firstCallOf(fn *ssa.Function, callee string) *ssa.Call {
 // mergeCut turns the work items that arrived at a cut point into one.
 func (x *Exec) mergeCut(ins *ssa.Call, spec *CutSpec, arr []workItem) workItem {
 	x.cutDone[ins] = true
+	x.cutFired[spec.Callee] = true
 	for _, it := range arr {
 		env := x.frameEnv(it.st, it.fr, nil)
 		for _, cl := range spec.Cl {
